@@ -3,7 +3,10 @@
 Crash-point enumeration (E3): for every class and shape, EVERY strict prefix of
 the file written by save() (every byte offset 0..len-1) is handed to the class
 loader and, for count-min files, to the module-level load(); each must raise.
-The complete file must load and equal the saved sketch.
+The complete file must load and equal the saved sketch.  Each subject is also
+run in a second history: save() onto a path that already holds a LONGER file
+written by save() (a re-used file name) - the result is still "a file written by
+save()", all of its prefixes must fail and it must load to the second sketch.
 """
 import os
 import shutil
@@ -25,6 +28,7 @@ def _subjects(tier, seed):
         ("hh-a", "hh", (3 + s % 3, 2, 5)),
         ("hll-a", "hll", (7, 2**63 + 5 + s)),
     ]
+    subj += [(n + "-over", k, a) for n, k, a in subj]
     if tier == "thorough":
         subj += [
             ("linear-b", "linear", (300 + s, 8)),
@@ -35,6 +39,17 @@ def _subjects(tier, seed):
             ("hh-c", "hh", (1, 1, 1)),
         ]
     return subj
+
+
+def _bigger(kind, args):
+    """A sketch of the same class whose file is clearly longer (for the 'save over an
+    existing file' scenario)."""
+    a = list(args)
+    if kind == "hll":
+        a[0] = min(16, a[0] + 3)
+    else:
+        a[0] = a[0] * 4 + 30
+    return _build(kind, a)
 
 
 def _build(kind, args):
@@ -78,21 +93,28 @@ def run(rep):
         for name, kind, args in _subjects(rep.tier, rep.seed):
             sk = _build(kind, args)
             full = os.path.join(d, f"{name}.npz")
+            if name.endswith("-over"):
+                # the path already holds a longer file written by save(): the second save()
+                # must leave nothing of it behind
+                _bigger(kind, args).save(full)
             sk.save(full)
             blob = open(full, "rb").read()
             n = len(blob)
             # the complete file loads to the saved sketch
             for lname, loader in _loaders(kind):
                 for shared in (False, True):
-                    got = loader(full, shared)
                     rep.evals()
+                    case = {"kind": "full", "subject": name, "loader": lname, "shared": shared,
+                            "kind_": kind, "args": list(args)}
+                    try:
+                        got = loader(full, shared)
+                    except Exception as e:
+                        rep.violation(case, f"{name}: the complete file written by save() does not "
+                                            f"load: {type(e).__name__}: {e}")
+                        continue
                     diff = SK.persist_diff(sk, got)
                     if diff:
-                        rep.violation(
-                            {"kind": "full", "subject": name, "loader": lname, "shared": shared,
-                             "kind_": kind, "args": list(args)},
-                            f"{name}: complete file loads to a different sketch ({diff})",
-                        )
+                        rep.violation(case, f"{name}: complete file loads to a different sketch ({diff})")
                     del got
             part = os.path.join(d, f"{name}-cut.npz")
             bad = 0
@@ -141,10 +163,15 @@ def replay(case):
     try:
         sk = _build(kind, args)
         full = os.path.join(d, "f.npz")
+        if name.endswith("-over"):
+            _bigger(kind, args).save(full)
         sk.save(full)
         loader = dict(_loaders(kind))[case["loader"]]
         if case["kind"] == "full":
-            got = loader(full, case["shared"])
+            try:
+                got = loader(full, case["shared"])
+            except Exception as e:
+                return True, {"complete_file_load_raised": type(e).__name__}
             diff = SK.persist_diff(sk, got)
             return bool(diff), {"differs_in": diff}
         blob = open(full, "rb").read()
